@@ -86,7 +86,7 @@ def _mk_part(pid, divs, voices, staves, octave, missing_staff=False, with_rest=T
         for j in range(2):
             notes.append(("%sv%dn%d" % (pid, v, j), j * bar // 2, bar // 2, "CDEFGAB"[(k + j) % 7], None, octave, v, st))
         notes.append(("%sv%dlong" % (pid, v), bar, bar, "CDEFGAB"[(k + 3) % 7], None, octave, v, st))
-    rests = [("%sr" % pid, 2 * bar, bar, voices[0], None if missing_staff else 1)] if with_rest else []
+    rests = [("%sr" % pid, 2 * bar, bar, voices[0] if voices else 1, None if missing_staff else 1)] if with_rest else []
 
     def extra(p, byid):
         p.add(sc.Words("espr. " + pid, staff=None if missing_staff else 1), bar // 2)
@@ -108,6 +108,7 @@ def _configs(tier):
         ("voice_gap", [(2, [1, 3], 1), (2, [1, 2], 1)]),
         ("five_voices_one_staff", [(2, [1, 2, 3, 4, 5], 1), (2, [1, 2], 1)]),
         ("missing_staff", [(2, [1], 1, True), (4, [1, 2], 1, True)]),
+        ("middle_part_holds_only_a_rest", [(2, [1], 1), (1, [], 1), (3, [1], 1)]),
         ("common_divisions_above_32767", [(10080, [1], 1), (768, [1], 1), (480, [1], 1)]),
     ]
     if tier == "thorough":
@@ -135,8 +136,12 @@ def bounded(b):
                 # reference: which input each note comes from, its old voice/staff
                 origin = {}
                 for i, p in enumerate(parts):
+                    used = {(n.voice, n.staff if n.staff is not None else 1) for n in p.iter_all(sc.Note, include_subclasses=True)}
                     for n in p.iter_all(sc.GenericNote, include_subclasses=True):
-                        origin[n.id] = (i, n.voice, n.staff if n.staff is not None else 1)
+                        # the property speaks of NOTES: a rest is followed only where it lies in a voice and on a staff that notes of its input use
+                        # (then it moves with them); the number given to a voice or staff that holds nothing but rests is not constrained
+                        if isinstance(n, sc.Note) or ({v for v, _ in used} >= {n.voice} and {s for _, s in used} >= {n.staff if n.staff is not None else 1}):
+                            origin[n.id] = (i, n.voice, n.staff if n.staff is not None else 1)
                 first_struct = {"measures": [(m.start.t * (L // spec[0][0]), m.end.t * (L // spec[0][0])) for m in parts[0].iter_all(sc.Measure)],
                                 "ts": [(t.start.t * (L // spec[0][0]), t.beats, t.beat_type) for t in parts[0].iter_all(sc.TimeSignature)],
                                 "ks": [(k.start.t * (L // spec[0][0]), k.fifths) for k in parts[0].iter_all(sc.KeySignature)]}
